@@ -135,6 +135,14 @@ harness_op(int argc, char **argv)
         printf("ok");
     } else if (!medium) {
         printf("bad-op");
+    } else if (strcmp(op, "ps.resum") == 0 && argc == 3) {
+        /* the checksum of a live instance is configured again (a format migration): no persistent_init() in between */
+        unsigned long init = parse_u64(argv[2]);
+        if (strcmp(argv[1], "crc16") == 0) persistent_sum16(&store, crc16_adapter, (uint16_t)init);
+        else if (strcmp(argv[1], "sum32") == 0) persistent_sum32(&store, sum32, (uint32_t)init);
+        else { printf("bad-op"); return; }
+        snprintf(kindname, sizeof kindname, "%s", argv[1]);
+        printf("ok");
     } else if (strcmp(op, "ps.faults") == 0 && argc == 2) {
         nfaults = fidx = 0;
         if (strcmp(argv[1], "-") != 0) {
